@@ -1,10 +1,10 @@
 CONSTANT NoPassCopies = TRUE
 CONSTANT NCALLS = 2
 CONSTANT SMALL = FALSE
-INIT MCInit
-NEXT MCNext
+SPECIFICATION MCSpec
 INVARIANT AtReturn
 INVARIANT Progress
 INVARIANT HeldOnlyInCall
 PROPERTY BufMonotone
+PROPERTY Terminates
 CHECK_DEADLOCK FALSE
